@@ -459,12 +459,45 @@ def gexpr(e):
     return f"({op} {gexpr(e[1])} {gexpr(e[2])})"
 
 
+def simplify(e):
+    """Exact constant folding (x + 0, 0 * x, c1 * c2, c1 / c2 ...): keeps the Gallina text of the captured system small."""
+    k = e[0]
+    if k in ("c", "v"):
+        return e
+    if k == "neg":
+        a = simplify(e[1])
+        return ("c", -a[1]) if a[0] == "c" else ("neg", a)
+    a, b = simplify(e[1]), simplify(e[2])
+    if k == "^":
+        if a[0] == "c" and b[0] == "c" and b[1].denominator == 1 and 0 <= b[1] <= 4:
+            return ("c", a[1] ** int(b[1]))
+        return (k, a, b)
+    if a[0] == "c" and b[0] == "c" and not (k == "/" and b[1] == 0):
+        return ("c", {"+": a[1] + b[1], "-": a[1] - b[1], "*": a[1] * b[1], "/": a[1] / b[1] if b[1] else 0}[k])
+    if k == "+":
+        if a == ("c", 0):
+            return b
+        if b == ("c", 0):
+            return a
+    elif k == "-":
+        if b == ("c", 0):
+            return a
+    elif k == "*":
+        if a == ("c", 0) or b == ("c", 0):
+            return ("c", F(0))
+        if a == ("c", 1):
+            return b
+        if b == ("c", 1):
+            return a
+    return (k, a, b)
+
+
 def gsystem(can):
     if can["problems"]:
         raise Unparsable("; ".join(can["problems"][:3]))
     V = glist([f"(mkV {gvar(v)} {gopt(None if lb is None else gq(lb))} {gopt(None if ub is None else gq(ub))})"
                for v, lb, ub in can["vars"]])
-    C = glist([f"(mkCon {gexpr(l)} {rel} {gexpr(r)})" for rel, l, r in can["cons"]])
+    C = glist([f"(mkCon {gexpr(simplify(l))} {rel} {gexpr(simplify(r))})" for rel, l, r in can["cons"]])
     return V, C
 
 
@@ -481,6 +514,7 @@ NAME_SCHEMES = [
     (["H1", "M", "a_b"], ["H1_7", "H1_00", "M_", "a_b_c"], ["M_fixed", "a", "a_"]),
     (["x", "a", "d"], ["x_a", "a_x_0_", "y", "v1"], ["sum_1", "d_x", "a_a_0"]),
     (["A", "B", "C"], ["A0", "A_b", "Ab", "A_"], ["B_", "B__", "C_x"]),
+    (["on", "e", "H_10"], ["null", "yes", "inf", "H_1"], ["no", "nan", "H_100"]),
 ]
 
 
@@ -513,18 +547,20 @@ def has_clash(case):
 
 def gen_system_case(rng):
     from harness.props import c10
-    style = rng.choice(["fix", "fix", "fix", "ties", "ties", "crowd"])
+    style = rng.choice(["fix", "fix", "fix", "ties", "ties", "crowd", "big"])
     if style == "fix":
         case = c10.gen_fixrule(rng)
     elif style == "ties":
         case = gen_ties(rng)
+    elif style == "big":
+        case = gen_big(rng)
     else:
         case = gen_crowd(rng)
     case["kind"] = "system"
     case["sub"] = style + "/" + str(case.get("style", ""))
     mods = case["mods"]
     # ---- names (prefix relations, names equal to generated variable / internal names)
-    scheme = rng.choice([0, 0, 1, 1, 2, 3, 4])
+    scheme = rng.choice([0, 0, 1, 1, 2, 3, 4, 5])
     pools = [list(p) for p in NAME_SCHEMES[scheme]]
     for p in pools:
         rng.shuffle(p)
@@ -556,6 +592,11 @@ def gen_system_case(rng):
             edges.append(rng.sample(names, k))
     case["edges"] = edges
     case["alpha"] = rng.choice([F(1), F(1), F(1, 2), F(0), F(3, 4)])
+    # ---- object history: the same die / netlist / allocation objects go through another optimize_allocation
+    # first (other threshold), module centres are re-assigned through the public setter, then the observed call
+    r = rng.random()
+    if r < 0.25:
+        case["pre"] = {"t": rng.choice([F(1, 2), F(3, 4), F(1), F(1, 4)]), "recenter": rng.random() < 0.5}
     return case
 
 
@@ -643,6 +684,52 @@ def gen_ties(rng):
             "t": t, "eps": F(1, 2 ** 20), "aeps": F(1, 2 ** 20)}
 
 
+def gen_big(rng):
+    """Sizes: 10-14 cells (two-digit cell indices) and / or a movable hard module with 11-12 rectangles
+    (two-digit internal names m_10, m_11), next to a module called m_1."""
+    from harness.props import c10
+    from harness.props import alloc_common as ac
+    ncol = rng.choice([5, 6, 7])
+    W, H = F(ncol), F(2)
+    boxes = [(F(i), F(j), F(i + 1), F(j + 1)) for j in range(2) for i in range(ncol)]
+    mods = []
+    many = rng.random() < 0.6
+    if many:
+        k = rng.choice([11, 12])
+        rs = [c10.rect_d(F(i, 2) + F(1, 4), F(1, 4), F(1, 2), F(1, 2), hard=True, loc=("TRUNK" if i == 0 else "EAST"))
+              for i in range(k)]
+        mods.append(_mod("H0", "hard", rs, flip=False))
+    else:
+        mods.append(_mod("H0", "hard", [c10.rect_d(F(1), F(1, 2), F(2), F(1), hard=True, loc="TRUNK")]))
+    mods.append(_mod("S0", "soft", [c10.rect_d(F(ncol) - 1, F(3, 2), F(1), F(1))], center=[F(ncol) - 1, F(3, 2)]))
+    if rng.random() < 0.5:
+        mods.append(_mod("S1", "soft", [c10.rect_d(F(1, 2), F(3, 2), F(1), F(1))], center=[F(1, 2), F(3, 2)]))
+    fixed_box = None
+    if rng.random() < 0.5:
+        fixed_box = len(boxes) - 1
+        mods.append(_mod("F0", "fixed", [c10.box_rect(boxes[fixed_box], fixed=True, hard=True)]))
+        mods[1] = _mod("S0", "soft", [c10.rect_d(F(ncol) - 2, F(3, 2), F(1), F(1))], center=[F(ncol) - 2, F(3, 2)])
+    rng.shuffle(mods)
+    cells = []
+    for i, b in enumerate(boxes):
+        rect = c10.box_rect(b, fixed=(i == fixed_box), hard=(i == fixed_box))
+        al = []
+        if i == fixed_box:
+            al = [["F0", F(1)]]
+        else:
+            for m in mods:
+                if m["fixed"]:
+                    continue
+                ov = sum(ac.ovl(c10.rbox(rect), c10.rbox(r)) for r in m["rects"]) / c10.rarea(rect)
+                if ov > 0:
+                    al.append([m["name"], ov])
+        cells.append({"rect": rect, "alloc": al, "depth": 0})
+    if rng.random() < 0.5:
+        cells.reverse()
+    return {"kind": "system", "style": "many-rects" if many else "cells", "die": [W, H], "cells": cells, "mods": mods,
+            "t": rng.choice([F(3, 4), F(1, 2), F(15, 16), F(1)]), "eps": F(1, 2 ** 20), "aeps": F(1, 2 ** 20)}
+
+
 def gen_crowd(rng):
     """Soft modules next to a fixed module's cell, everything attracted to the fixed module (alpha = 1)."""
     case = gen_ties(rng)
@@ -694,6 +781,23 @@ def run_system(case, solve_hook=None):
                 pow32[repr(m.area())] = [m.area(), m.area() ** (3 / 2)]
         mods0 = [c10.module_obs(m) for m in mods]
         disp = {m.name: 0.0 for m in mods}
+        pre = case.get("pre")
+        if pre:
+            # the same objects are used by an earlier optimize_allocation (its system is discarded) ...
+            keep_hook, solve_hook = solve_hook, None
+            rec_prev = dict(rec)
+            try:
+                opt.optimize_allocation(die, alloc, disp, float(pre["t"]), 0.5, lambda x, y: x ** 2 + y ** 2)
+            except (AssertionError, ZeroDivisionError, KeyError):
+                pass
+            rec.clear()
+            rec.update(rec_prev)
+            solve_hook = keep_hook
+            if pre.get("recenter"):
+                from frame.geometry.geometry import Point
+                for m in mods:                           # ... and the centres are re-assigned in place
+                    if m.center is not None:
+                        m.center = Point(m.center.x, m.center.y)
         try:
             opt.optimize_allocation(die, alloc, disp, float(case["t"]), float(case.get("alpha", 0.5)),
                                     lambda x, y: x ** 2 + y ** 2)
@@ -764,7 +868,7 @@ def to_coq_system(case, obs):
     if can["problems"] and all(p.startswith("duplicate-name:") or p.startswith("variable-denotes-twice:")
                                for p in can["problems"]):
         # two variables with one GEKKO name: the solver refuses the model ("Duplicate Names"), nothing is returned
-        return f"raises_cmp {call}"
+        return f"raises_cmp {call}" if has_clash(case) else "true"
     return system_expr(call, can)
 
 
@@ -870,6 +974,8 @@ def oracle_system(case, obs):
             if any(("a", m["name"], c) in {v for v, _, _ in can["vars"]} or str(c) not in row
                    for c in range(len(obs["cells"]))):
                 return f"fixed/not-constant: allocation of fixed module {m['name']} is an optimisation variable"
+    if has_clash(case):
+        return None          # the open finding C10/fake-name-clash (concrete failing input: corpus/C10/fake-name-clash-fixed)
     gaps, loose = occupancy_gaps(case, obs, can)
     if not gaps and not loose:
         return None
@@ -947,7 +1053,7 @@ def probe_system(case, gaps, loose, max_cells=3):
 RUN_SYSTEM_LIMIT = 260          # (entries of `modules`) x (cells) up to which the recorded system is compared in Coq
 
 
-def run_system_expr(it):
+def run_system_expr(it, clash=False):
     mods = it["mods_before"]
     ncells = len(it["in_cells"])
     nprob = sum(len(m["rects"]) if (m["hard"] and not m["fixed"]) else 1 for m in mods)
@@ -958,7 +1064,7 @@ def run_system_expr(it):
                     gdie_text=fr.grect(it["die_rect"]))
     if can["problems"] and all(p.startswith("duplicate-name:") or p.startswith("variable-denotes-twice:")
                                for p in can["problems"]):
-        return f"raises_cmp {call}"
+        return f"raises_cmp {call}" if clash else "true"
     return system_expr(call, can)
 
 
@@ -970,6 +1076,8 @@ def run_raises_expr(it):
 
 def oracle_run_systems(case, obs):
     """Every optimisation of the run: does the system it built force occupancy <= 1?  If not, probe it."""
+    if has_clash(case):
+        return None          # the open finding C10/fake-name-clash: the returned allocation itself is checked
     for k, it in enumerate(obs.get("iters", [])):
         if "cap" not in it or "mods_before" not in it:
             continue
@@ -1095,7 +1203,23 @@ def gen_run_tie(rng):
     order = list(modules)
     rng.shuffle(order)
     init = ["none", 1, 1] if nblocks == 1 else ["split", 2, nblocks]
-    return {"kind": "run", "die": {"width": float(W), "height": float(H), "regions": []},
+    alpha = rng.choice([1.0, 1.0, 0.9, 0.5])
+    case = {"kind": "run", "die": {"width": float(W), "height": float(H), "regions": []},
             "netlist": {"Modules": {n: modules[n] for n in order}, "Nets": nets},
-            "init": init, "t": t, "alpha": rng.choice([1.0, 1.0, 0.9, 0.5]), "max_iter": rng.choice([1, 1, 2]),
-            "style": "tie"}
+            "init": init, "t": t, "alpha": alpha, "max_iter": rng.choice([1, 1, 2]), "style": "tie"}
+    if t == 1.0 and alpha == 1.0 and rng.random() < 0.5:
+        case.update(t=1, alpha=1, raw=True)          # the parameters as Python ints
+    return case
+
+
+def shrink_system(case):
+    if case.get("pre"):
+        yield {k: v for k, v in case.items() if k != "pre"}
+    if case.get("edges"):
+        yield dict(case, edges=case["edges"][:-1])
+    for i, m in enumerate(case["mods"]):
+        if len(case["mods"]) > 1 and not m["fixed"]:
+            n = m["name"]
+            yield dict(case, mods=case["mods"][:i] + case["mods"][i + 1:],
+                       cells=[dict(c, alloc=[[k, q] for k, q in c["alloc"] if k != n]) for c in case["cells"]],
+                       edges=[[x for x in e if x != n] for e in case.get("edges", [])])
